@@ -187,7 +187,8 @@ func (msg MsgInitiateTokenDeposit) Validate(ac address.Codec) error {
 	}
 
 	// allow zero amount for creating account
-	if !msg.Amount.IsValid() {
+	// the amount is committed as a 64-bit integer in the withdrawal leaf
+	if !msg.Amount.IsValid() || !msg.Amount.Amount.IsUint64() {
 		return ErrInvalidAmount
 	}
 
@@ -244,7 +245,7 @@ func (msg MsgFinalizeTokenWithdrawal) Validate(ac address.Codec) error {
 		return err
 	}
 
-	if !msg.Amount.IsValid() || msg.Amount.IsZero() {
+	if !msg.Amount.IsValid() || msg.Amount.IsZero() || !msg.Amount.Amount.IsUint64() {
 		return ErrInvalidAmount
 	}
 
